@@ -12,11 +12,16 @@ FAMILIES = {
     "subq": dict(seed=105, n=2500, opts={**OFF, "subq": True, "joins": False, "boolops": True, "max_depth": 2, "null_p": 0.3, "dom": 2}),
     "setop": dict(seed=106, n=2000, opts={**OFF, "setops": True, "joins": False, "null_p": 0.35, "dom": 2, "setop_p": 1.0}),
     "order": dict(seed=107, n=2500, opts={**OFF, "joins": False, "boolops": False, "order_p": 1.0, "max_rows": 6, "null_p": 0.3, "dom": 3}),
+    "csingle": dict(seed=109, n=3000, opts={**OFF, "joins": False, "const_atoms": False}),
+    "cjoins": dict(seed=110, n=3000, opts={**OFF, "boolops": False, "const_atoms": False}),
+    "scan": dict(seed=111, n=1500, opts={**OFF, "joins": False, "order": False, "max_rows": 8, "tables": 1, "const_atoms": False, "max_depth": 1}),
+    "big": dict(seed=112, n=1200, opts={**OFF, "group": True, "max_rows": 14, "tables": 2, "cols": 3, "const_atoms": False, "boolops": False,
+                                        "join_kinds": ["inner", "left"], "order_p": 0.8, "avg": False}),
     "cte": dict(seed=108, n=2000, opts={**OFF, "cte": True, "derived": True, "cte_p": 1.0, "boolops": False, "group": True}),
 }
 
 # restricted grammar for the seeded tier: on the unchanged tree only spec-level deviations occur here
 CLEAN = {
-    "single": {**OFF, "joins": False},
-    "joins": {**OFF, "boolops": False},
+    "single": {**OFF, "joins": False, "const_atoms": False, "notin_sub": False},
+    "joins": {**OFF, "boolops": False, "const_atoms": False, "notin_sub": False},
 }
